@@ -115,7 +115,9 @@ def oracle_dobj(run):
     gots = {}        # id -> list of (line index, text)
     dtor_done = set()
     heldset = {}     # tid -> names of the mutexes it holds
-    mholder = {}     # mutex name -> tid holding it
+    mholder = {}     # mutex name -> tid holding it exclusively
+    sholders = {}    # mutex name -> tids holding it shared
+    xheld = {}       # tid -> mutexes it holds exclusively
     overlap = False  # critical sections (of different mutexes) of two calls overlapped
     several = False  # some call consisted of several critical sections
     started = {}     # tid -> line of its current call
@@ -131,14 +133,22 @@ def oracle_dobj(run):
             cur[tid] = (kind, key, arg)
             phase[tid] = "called"
             started[tid] = i
-        elif k in ("mlk", "mtl", "mtf"):
-            # any mutex, whatever it is called (the harness names the one it knows `promiseLock`; a rewrite may add more)
-            if k != "mlk" and t[2] != "1":
+        elif k in ("mlk", "mtl", "mtf", "slk", "stl", "stf"):
+            # any mutex, whatever it is called (the harness names the one it knows `promiseLock`; a rewrite may add more),
+            # exclusive or shared side
+            if k not in ("mlk", "slk") and t[2] != "1":
                 continue
             name = t[1]
-            if mholder.get(name) is not None:
-                return "%s granted to %d while %d holds it" % (name, tid, mholder[name])
-            mholder[name] = tid
+            sh = k[0] == "s"
+            if mholder.get(name) is not None or (not sh and sholders.get(name)):
+                return "%s granted to %d while %s holds it" % (name, tid, mholder.get(name) if mholder.get(name) is not None
+                                                               else sorted(sholders[name]))
+            if sh:
+                sholders.setdefault(name, set()).add(tid)
+                xheld.setdefault(tid, set()).discard(name)
+            else:
+                mholder[name] = tid
+                xheld.setdefault(tid, set()).add(name)
             heldset.setdefault(tid, set()).add(name)
             if tid not in phase:
                 return "thread %d locked %s outside a call" % (tid, name)
@@ -152,19 +162,25 @@ def oracle_dobj(run):
             elif phase[tid] == "unlocked":
                 several = True         # a call made of several critical sections: judged by the futures, not by the reference
                 phase[tid] = "locked"
-        elif k == "mul":
+        elif k in ("mul", "sul"):
             name = t[1]
-            if mholder.get(name) != tid:
-                return "thread %d released %s without holding it" % (tid, name)
-            mholder[name] = None
+            if k == "sul":
+                if tid not in sholders.get(name, set()):
+                    return "thread %d released %s (shared) without holding it" % (tid, name)
+                sholders[name].discard(tid)
+            else:
+                if mholder.get(name) != tid:
+                    return "thread %d released %s without holding it" % (tid, name)
+                mholder[name] = None
+                xheld.setdefault(tid, set()).discard(name)
             heldset.setdefault(tid, set()).discard(name)
             if not heldset[tid]:
                 phase[tid] = "unlocked"
                 if cur[tid][0] == "dtor":
                     dtor_done.add(tid)
         elif k == "pset":
-            if not heldset.get(tid):
-                return "thread %d satisfied a promise (value %s) without holding any mutex" % (tid, t[2])
+            if not xheld.get(tid):
+                return "thread %d satisfied a promise (value %s) without holding any mutex exclusively" % (tid, t[2])
             psets.setdefault(sec_of[tid], []).append(int(t[2]))
         elif k in ("pld", "pst"):
             m = t[1].split("+")[0]
@@ -179,6 +195,8 @@ def oracle_dobj(run):
                 if not lockset[m]:
                     return ("map %s is not consistently protected: thread %d accesses it holding %s, earlier accesses held %s"
                             % (m, tid, sorted(hs), sorted(prev)))
+                if k == "pst" and not (lockset[m] & frozenset(xheld.get(tid, ()))):
+                    return "thread %d WROTE map %s holding %s only shared (other readers may be inside)" % (tid, m, sorted(hs))
         elif k == "ret":
             if phase.get(tid) == "called":
                 # a call that took no lock at all (a lock-free fast path): not by itself a failure; it is placed in the
@@ -262,6 +280,18 @@ def oracle_dobj(run):
                 return "future %d yielded %s although nothing satisfied it" % (pid, val)
             if not once:
                 continue
+            if overlap or several:
+                # calls made of several steps / sections of different mutexes that overlap: "the first deciding operation in
+                # the order of the sections" is not well defined; require only that SOME operation that could decide the
+                # value explains it
+                cands = {str(a) for (_, _, kd, k2, a) in sections if (kd == "set" and k2 == key) or kd == "ful"}
+                cands.add("0")
+                if any(kd == "get" and k2 == key and j != si for j, (_, _, kd, k2, _a) in enumerate(sections)):
+                    cands.add("broken")     # the key was requested again: the earlier promise is abandoned
+                if val not in cands:
+                    return "future %d (key %s:%s) yielded %s, no set / fulfil-all / destruction explains that value" % (
+                        pid, key[0], key[1], val)
+                continue
             if val != expect:
                 return "future %d (key %s:%s) yielded %s, the rule says %s" % (pid, key[0], key[1], val, expect)
             if line < decided_at:
@@ -271,7 +301,8 @@ def oracle_dobj(run):
     for pid in gots:
         if pid not in handed:
             return "future %d read but its getFuture has no critical section" % pid
-    return later[0] if later else None
+    # bookkeeping relative to the order of the sections: meaningless when calls consist of several steps / sections overlap
+    return later[0] if (later and not overlap and not several) else None
 
 
 def register(PROPS, COMPONENTS):
